@@ -1,6 +1,6 @@
 (* Props/C07.v — statements only.  Each is closed by [exact] of a lemma proved in Proofs/. *)
 From Coq Require Import ZArith QArith Qabs String Ascii List FMapPositive.
-From PT Require Import Str Dec Loaders Nsf C07Check C07Fix C07Sweep.
+From PT Require Import Str Dec Loaders Nsf C07Check C07Fix C07Sweep C07Rows.
 From PT.Gen Require Import NsfTables.
 Open Scope string_scope.
 
@@ -143,3 +143,12 @@ Theorem C07_source_nodes_return_tabulated :
   forall s, the_nsf = Some s -> forall t, In t energy_dependent_tables -> source_nodes_ok s t = true.
 Proof. exact source_nodes_return_tabulated. Qed.
 Print Assumptions C07_source_nodes_return_tabulated.
+
+(* every row of nsftable and of the companion table of imaginary lengths names the element it is filed under
+   (key "Z-Sym[-A]": the symbol is the symbol of atomic number Z, the mass number is positive) *)
+Theorem C07_rows_name_their_element :
+  (forall line, In line nsftable -> nsf_row_ok line = true) /\
+  (forall line, In line nsftableI -> nsf_row_ok line = true).
+Proof. exact nsf_rows_name_their_element. Qed.
+Print Assumptions C07_rows_name_their_element.
+
